@@ -40,6 +40,10 @@ fn shape_c06(p: &mut Profile, r: &mut Rng) {
     p.parse_fail_pct = p.parse_fail_pct.max(10);
     p.w_special_node += 4;
     p.w_convenience += 2;
+    // repair bursts (with names that cannot be repaired among them: the call must then be refused
+    // as a whole)
+    p.motif_pct = *r.pick(&[0u32, 2, 4]);
+    p.w_storewide = p.w_storewide.max(1);
 }
 
 /// a call that the model predicts to succeed and that leaves a structurally
